@@ -165,32 +165,34 @@ Definition Known_C17_update_inserted_row_created_at (st : bool) (ops : list op) 
 
 (* ---------------------------------------------------------------- domain conditions of the theorems *)
 Definition subsetN (a b : list N) : bool := forallb (fun x => memN x b) a.
-Definition has_id (cur : manifest) (fid : N) : bool := match find_frag (m_frags cur) fid with Some _ => true | None => false end.
-(* deletion vectors only grow *)
-Definition dv_grows (cur : manifest) (upd : list (N * list N)) : bool :=
-  forallb (fun x => match find_frag (m_frags cur) (fst x) with Some f => subsetN (f_del f) (snd x) | None => true end) upd.
+(* the entry of an (fragment id, payload) list that concerns fragment f *)
+Definition entry_for (upd : list (N * list N)) (f : frag) : option (N * list N) :=
+  find (fun x => fst x =? f_id f) upd.
 (* the deletion vector fragment f has after the operation *)
 Definition dv_after (upd : list (N * list N)) (f : frag) : list N :=
-  match find (fun x => fst x =? f_id f) upd with Some x => snd x | None => f_del f end.
-(* live row ids of a fragment under a deletion vector *)
-Definition live_ids (dv : list N) (f : frag) : list N := live dv (frag_ids f).
+  match entry_for upd f with Some x => snd x | None => f_del f end.
+(* deletion vectors only grow *)
+Definition dv_grows (cur : manifest) (upd : list (N * list N)) : bool :=
+  forallb (fun f => subsetN (f_del f) (dv_after upd f)) (m_frags cur).
 
 Definition op_ok17 (cur : manifest) (o : op) : bool :=
   match o with
-  | ODelete upd _ => dv_grows cur upd
+  | ODelete upd _ => nodupb (map fst upd) && dv_grows cur upd
   | OUpdate removed upd news =>
-      dv_grows cur upd &&
-      (* the rewritten rows are gone from the fragments that stay *)
+      nodupb (map fst upd) && dv_grows cur upd &&
+      (* the rewritten rows are gone from the fragments that stay: every offset is deleted afterwards or
+         holds an id that was not carried into a new fragment *)
       forallb (fun f => memN (f_id f) removed
-                        || forallb (fun r => negb (memN r (flat_map snd news))) (live_ids (dv_after upd f) f))
+                        || forallb (fun o => memN o (dv_after upd f) || negb (memN (nthN (frag_ids f) o 0) (flat_map snd news)))
+                                   (nseq 0 (f_phys f)))
               (m_frags cur)
   | OUpdateCols rew =>
       nodupb (map fst rew) &&
       (* every live row that carries a rewritten id sits at a rewritten position *)
       forallb (fun f =>
-                 let offs := match find (fun x => fst x =? f_id f) rew with Some x => touched_offs f (snd x) | None => [] end in
-                 forallb (fun p => memN (fst p) offs || negb (memN (snd p) (rewritten_ids cur rew)))
-                         (live (f_del f) (combine (nseq 0 (f_phys f)) (frag_ids f))))
+                 let offs := match entry_for rew f with Some x => touched_offs f (snd x) | None => [] end in
+                 forallb (fun o => memN o (f_del f) || memN o offs || negb (memN (nthN (frag_ids f) o 0) (rewritten_ids cur rew)))
+                         (nseq 0 (f_phys f)))
               (m_frags cur)
   | _ => true
   end.
